@@ -200,10 +200,21 @@ def hyp_run(ctx, name, strategy, prop, n, shrink=True):
               print_blob=False)
     @given(strategy)
     def test(case):
-        prop(case)
+        if harness_errors:
+            return
+        try:
+            prop(case)
+        except Violation:
+            raise
+        except Exception:
+            # a bug in the harness (or a dead worker): do not let Hypothesis spend minutes shrinking it
+            harness_errors.append(traceback.format_exc()[-3000:] + '\ncase: %.2000r' % (case,))
 
+    harness_errors = []
     try:
         test()
+        if harness_errors:
+            raise HarnessError(harness_errors[0])
     except Violation as v:
         ctx.record_violation(v)
     except BaseException as e:  # hypothesis Flaky / Unsatisfiable etc. -> harness error
